@@ -316,8 +316,6 @@ def _cmp(key, path, a, b, out, mode):
 
 
 def _list_sig(path, a, b):
-    if a and isinstance(a[0], tuple) and a[0] and path.endswith("[2]") and False:
-        pass
     # case statement: ('case', sel, actions, otherwise): actions are at index 2
     if re.search(r"\[2\]$", path) and _looks_like_case_actions(a) and _looks_like_case_actions(b):
         fa = [(l, st) for labels, st in a for l in labels]
@@ -347,6 +345,10 @@ def _scalar_sig(path, a, b):
     pk = _path_kind(path)
     if a is None and b == [] or a == [] and b is None:
         return "call-empty-parameter-list"
+    if pk.endswith("supertype_of") and isinstance(a, str) and isinstance(b, str):
+        strip = lambda x: x.replace("(", "").replace(")", "")
+        if strip(a.replace("ONEOF(", "ONEOF<")) == strip(b.replace("ONEOF(", "ONEOF<")):
+            return "supertype-expression-regrouped"
     if isinstance(a, str) and isinstance(b, str) and pk.endswith("[]") and ("attrs" in pk or "locals" in pk or "params" in pk or "under" in pk
                                                                             or "derive" in pk or "ret" in pk or "type" in pk or "inverse" in pk):
         return "type-reference-changed"
